@@ -374,6 +374,10 @@ MUTATIONS += [
     dict(id="C16-repair-dry-run-copies", prop="C16", file=RH, old="    if !missing_cold.is_empty() {\n        if dry_run {", new="    if !missing_cold.is_empty() {\n        if dry_run && file_type == FileType::Pack {"),
 ]
 
+MUTATIONS += [
+    dict(id="C05-list-missing-marked-pack-is-warning", prop="C05", file=CK, old="    for (id, (size, to_delete)) in packs {\n        collector.add_error(CheckError::NoPack {\n            id: *id,\n            to_delete: *to_delete,\n            size: *size,\n        });\n    }", new="    for (id, (size, to_delete)) in packs {\n        let err = CheckError::NoPack {\n            id: *id,\n            to_delete: *to_delete,\n            size: *size,\n        };\n        if *to_delete {\n            collector.add_warn(err);\n        } else {\n            collector.add_error(err);\n        }\n    }"),
+]
+
 HARMLESS = [
     dict(id="H-C05-trees-symlink-continue", prop="C05", file=CK, old="        for node in tree.nodes {\n            match node.node_type {", new="        for node in tree.nodes {\n            if node.node_type == NodeType::Symlink {\n                continue;\n            }\n            match node.node_type {"),
     # independent statements reordered
